@@ -48,6 +48,12 @@ def gen_stack(rng):
             kind = rng.choice(["type", "line", "col"])
             arg = rng.sample(["Name", "Constant", "BinOp", "Call", "Assign", "Expr", "Attribute", "Subscript", "Compare", "For", "FunctionDef"], 4) if kind == "type" else rng.randrange(2 if kind == "line" else 3)
             t["pred"] = {"kind": kind, "arg": arg, "dynamic": True}
+    if rng.random() < 0.2:
+        # one tracer of the stack (mostly the innermost) declares requires_ast_bookkeeping = False: the OTHERS must still be given their nodes
+        # (what that tracer itself is given depends on its neighbours: known finding C05-node-table-shared-by-stack, not compared)
+        t = out[-1] if rng.random() < 0.7 else rng.choice(out)
+        if not t.get("pred"):
+            t["nobook"] = True
     return out
 
 
@@ -85,8 +91,8 @@ PROBE = "def probe_fn():\n    pq = 1\n    return pq + 1\n"
 
 def harness_tracer(t):
     if t.get("pred") or t.get("calls"):
-        return {"handlers": [{"events": t["events"], "pred": t.get("pred"), "calls": t.get("calls")}], "guards": t["guards"]}
-    return {"events": t["events"], "guards": t["guards"]}
+        return {"handlers": [{"events": t["events"], "pred": t.get("pred"), "calls": t.get("calls")}], "guards": t["guards"], "nobook": t.get("nobook", False)}
+    return {"events": t["events"], "guards": t["guards"], "nobook": t.get("nobook", False)}
 
 
 def to_impl(c, export=True):
@@ -131,6 +137,8 @@ def oracle_case(c, im):
         # a synthetic BaseException name that is in no table: documented under C02 as having no source meaning)
         return [x[:3] for x in stream if not (t.get("pred") and x[1] is None)]
     for i, r in enumerate(solos):
+        if st[i].get("nobook"):
+            continue          # what a tracer without bookkeeping is given depends on its neighbours (C05-node-table-shared-by-stack)
         d = first_diff(rows(stacked["streams"][i], st[i]), rows(r["streams"][0], st[i]))
         if d:
             return {"what": "tracer %d receives a different stream when stacked (occurrence %d: stacked %d rows, alone %d rows)"
